@@ -79,6 +79,22 @@ CATALOGUE = [
     ('c11_start_unit_not_converted', 'C11', S,
      "            initial_time = self.__powertrain.time[-1].to(\n                time_discretization.unit\n            )\n",
      "            initial_time = self.__powertrain.time[-1]\n"),
+    # ---- C12
+    ('c12_reset_keeps_last_instant', 'C12', P,
+     "        self.__time = []\n\n        for element in self.elements:",
+     "        self.__time = self.__time[-1:]\n\n        for element in self.elements:"),
+    ('c12_lock_flag_cleared_every_run', 'C12', S,
+     "        self._compute_powertrain_inertia()\n        if self.__powertrain.time:",
+     "        self._compute_powertrain_inertia()\n        self.__powertrain_is_locked = False\n        if self.__powertrain.time:"),
+    ('c12_lock_flag_not_cleared_on_fresh_run', 'C12', S,
+     "            self.__powertrain_is_locked = False\n            self.__powertrain.update_time(initial_time)",
+     "            self.__powertrain.update_time(initial_time)"),
+    ('c12_continuation_recomputes_initial', 'C12', S,
+     "            initial_time = self.__powertrain.time[-1].to(\n                time_discretization.unit\n            )\n",
+     "            initial_time = self.__powertrain.time[-1].to(\n                time_discretization.unit\n            )\n            self._compute_powertrain_variables(motor_control=motor_control)\n"),
+    ('c12_continuation_dt_raw_value', 'C12', S,
+     "            self._time_integration(time_discretization=time_discretization)\n",
+     "            self._time_integration(time_discretization=time_discretization if len(self.__powertrain.time) < 3 or self.__powertrain.time[1].unit == time_discretization.unit else TimeInterval(time_discretization.value, self.__powertrain.time[1].unit))\n"),
 ]
 
 
